@@ -57,6 +57,7 @@ class FakeTransport:
         self.active = True
         self.wire = []  # dicts: {"type": name, "chan": remote id, "data": bytes?, "n": int?, "task": name}
         self.dropped = []
+        self.handed = []  # everything given to _send_user_message (sent or dropped), in order
         self._channels = ChannelMap()
         self.channels_seen = {}
         self.server_object = None
@@ -90,6 +91,7 @@ class FakeTransport:
         self.sched.yield_point(("send", NAMES.get(ptype, ptype)))
         ent = self._parse(raw)
         ent["task"] = self.sched.current_name()
+        self.handed.append(ent)
         if not self.active:
             # Transport._send_user_message: "Dropping user packet because connection is dead."
             self.dropped.append(ent)
